@@ -87,6 +87,13 @@ class Check:
         return True
 
     def machinery_failure(self, msg):
+        import re as _re
+
+        m = _re.search(r"\[IMPL-EXCEPTION site=(\S+) exc=(\w+)\]", str(msg))
+        if m:
+            # the tree under test raised on an input the harness considers valid (see vlib/pool.py)
+            self.violation("impl-exception", {"message": str(msg)[:2000]}, key={"site": m.group(1), "exc": m.group(2)})
+            self.finish()
         print("MACHINERY-FAILURE property=%s: %s" % (self.pid, msg), file=sys.stderr, flush=True)
         self.write_evidence(status="machinery_failure")
         sys.exit(2)
